@@ -10,6 +10,7 @@ trap 'git -C /repo worktree remove --force $WT' EXIT
 for d in $(ls -d $SRC/C*/[a-z] | sort); do
   id=$(basename $(dirname $d)); n=$(basename $d)
   if [ $# -gt 0 ] && ! echo " $* " | grep -q " $id "; then continue; fi
+  if [ -n "$NS" ] && ! echo " $NS " | grep -q " $n "; then continue; fi
   cd $WT && git checkout -q -- . && git clean -fdq
   [ -f $d/patch.diff ] || { echo "$id/$n NOPATCH"; continue; }
   demo=$d/demo_test.go; [ -f $demo ] || demo=$d/demo_test.go.txt
